@@ -267,11 +267,40 @@ def popen_cases(ctx, pexpect, n):
                 break
         cases.append(('(%s, %s)' % (coq_kern(*kern), P.coq_ops(ops)), obs, {'kern': repr(kern), 'ops': repr(ops)}))
     for _ in range(max(200, n // 10)):
-        reads = [rng.choice([bytes(rng.choice(b'ab') for _ in range(rng.randint(1, 4)))] * 6 + [b'', None]) for _ in range(rng.randint(0, 6))]
-        q, left = P.thread_run(pexpect, reads)
-        tcases.append((clist([('None' if r is None else '(Some %s)' % ctext(r)) for r in reads]), [([] if x is None else [x]) for x in q], {'reads': repr(reads)}))
+        enc = rng.choice([None, 'utf-8', 'utf-16'])
+        pool = [bytes(rng.choice(b'ab') for _ in range(rng.randint(1, 4)))] * 4 + [b'\xe2', b'\x82\xac', b'\xc3', b'\xff\xfe', b'a', b'', None]
+        reads = [rng.choice(pool) for _ in range(rng.randint(0, 6))]
+        try:
+            q, left = P.thread_run(pexpect, reads, encoding=enc)
+        except Exception as e:
+            if hits < 3:
+                hits += 1
+                ctx.hit('C06/thread-raises', 'the reader thread of PopenSpawn(encoding=%r) raised %r on the reads %r (it must queue what os.read returned and the end-of-file marker)' % (enc, e, reads),
+                        {'reads': repr(reads), 'encoding': enc})
+            continue
+        tcases.append((clist([('None' if r is None else '(Some %s)' % ctext(r)) for r in reads]), [([] if x is None else [x]) for x in q], {'reads': repr(reads), 'encoding': enc}))
     ctx.run_cases('popen-sim', ['Transport.Model', 'Transport.Popen', 'Transport.Run'], 'run_popen', 'kern * list pop_', cases, shard=400)
     ctx.run_cases('popen-thread', ['Transport.Model', 'Transport.Popen', 'Transport.Run'], 'run_thread', 'list (option (list N))', tcases, shard=400)
+
+
+def real_popen_split_char(ctx, pexpect):
+    """a real piped child writes a multi-byte character in two writes with a pause in between (one whole os.read of the reader
+    thread is an incomplete character): nothing may be lost and EOF comes only after everything"""
+    from pexpect import popen_spawn
+    prog = ("import sys, time\nw = sys.stdout.buffer\nfor piece in (b'abc', b'\\xe2', b'\\x82\\xac done\\n', b'\\xf0\\x9f', b'\\x98\\x80!'):\n"
+            "    w.write(piece); w.flush(); time.sleep(0.25)\n")
+    for enc, want in (('utf-8', 'abc\u20ac done\n\U0001F600!'), (None, 'abc\u20ac done\n\U0001F600!'.encode('utf-8'))):
+        p = popen_spawn.PopenSpawn([sys.executable, '-c', prog], encoding=enc, timeout=10)
+        try:
+            p.expect(pexpect.EOF)
+            got = p.before
+        except Exception as e:
+            ctx.hit('C06/real-popen-split', 'PopenSpawn(encoding=%r) on a child that writes a character in two pieces: %r' % (enc, e), {'encoding': enc})
+            return
+        if got != want:
+            ctx.hit('C06/real-popen-split', 'PopenSpawn(encoding=%r): the child wrote %r, reads up to EOF returned %r' % (enc, want, got), {'encoding': enc})
+            return
+    ctx.oracle_stats['real_popen_split_char'] = 2
 
 
 def run(ctx):
@@ -301,6 +330,7 @@ def run(ctx):
     ctx.oracle_stats['real_children'] = n1 + n2
     placed_race(ctx, pexpect, False)
     placed_race(ctx, pexpect, True)
+    real_popen_split_char(ctx, pexpect)
 
 
 def replay(ctx, path):
